@@ -972,10 +972,14 @@ package objects
 
 // ================================================================ C08: preemption commits only complete, covering victim sets
 
+// preempting resources are tracked on the queue and every ancestor with exactly the given resource
 //@ func (sq *Queue) IncPreemptingResource(alloc *resources.Resource)
 //@   props C08
-//@   trusted "frame only: adds to Queue.preemptingResource on the queue and its ancestors"
+//@   mode nopanic=off
 //@   assigns all Queue.preemptingResource
+//@   at[up] call objects.Queue.IncPreemptingResource#1: assert arg0 == sq.parent && arg1 == alloc
+//@   at[own] call resources.Add#1: assert arg0 == sq.preemptingResource && arg1 == alloc
+//@   ensures[both] sq != nil ==> ncalls(objects.Queue.IncPreemptingResource) == 1 && ncalls(resources.Add) == 1
 
 //@ func (sq *Queue) GetQueueByAppID(appID string) (q *Queue)
 //@   props C08
@@ -1459,3 +1463,64 @@ package objects
 //@   ensures[leaftemplate] err == nil && child.isLeaf && !child.isManaged && sq.template != nil ==> ncalls(objects.Queue.applyTemplate) == 1
 //@   ensures[carried] err == nil && !child.isLeaf && old(child.template) == nil ==> child.template == sq.template
 //@   ensures[kept] err == nil && !child.isLeaf && old(child.template) != nil ==> child.template == old(child.template)
+
+// a new reservation is only proposed for a node that is not reserved yet and whose reserve predicate accepted the ask, for
+// exactly that node and that ask; a successful allocation wins over any reservation
+//@ spec abstract nodereserved(n *Node) bool
+//@ func (sa *Application) tryNodes(ask *Allocation, iterator NodeIterator) (res *AllocationResult)
+//@   props C09 C01
+//@   sweep
+//@   mode nopanic=off
+//@   at[free] call objects.Node.IsReserved#1 after: assume ret <==> nodereserved(arg0)
+//@   at[freeof] call objects.Node.IsReserved#1: assert arg0 == nodeToReserve && nodeToReserve != nil
+//@   at[reservepredicate] call objects.Node.preReserveConditions#1: assert arg0 == nodeToReserve && arg1 == ask && !nodereserved(nodeToReserve)
+//@   at[proposal] call objects.newReservedAllocationResult#1: assert arg0 == nodeToReserve.NodeID && arg1 == ask && !nodereserved(nodeToReserve) && ncalls(objects.Node.preReserveConditions) == 1 && allocResult == nil
+
+// thin wrappers and small ledgers the transactions above go through
+//@ func (sa *Application) DeallocateAsk(allocKey string) (delta *resources.Resource, err error)
+//@   props C03 C04
+//@   sweep
+//@   mode nopanic=off
+//@   at[thatask] call objects.Application.deallocateAsk#1: assert arg0 == sa && arg1 == sa.requests[allocKey] && arg1 != nil
+//@   ensures[found] old(sa.requests[allocKey]) != nil ==> ncalls(objects.Application.deallocateAsk) == 1
+
+//@ func (sa *Application) AllocateAsk(allocKey string) (delta *resources.Resource, err error)
+//@   props C03 C04
+//@   sweep
+//@   mode nopanic=off
+//@   at[thatask] call objects.Application.allocateAsk#1: assert arg0 == sa && arg1 == sa.requests[allocKey] && arg1 != nil
+//@   ensures[found] old(sa.requests[allocKey]) != nil ==> ncalls(objects.Application.allocateAsk) == 1
+
+//@ func (sa *Application) RemoveAllocationAsk(allocKey string) (n int)
+//@   props C03 C09
+//@   sweep
+//@   mode nopanic=off
+//@   at[thatkey] call objects.Application.removeAsksInternal#1: assert arg0 == sa && arg1 == allocKey
+//@   ensures[always] ncalls(objects.Application.removeAsksInternal) == 1
+
+//@ func (sa *Application) UnSetQueue()
+//@   props C10 C03
+//@   sweep
+//@   mode nopanic=off
+//@   at[leaves] call objects.Queue.RemoveApplication#1: assert arg0 == old(sa.queue) && arg1 == sa
+//@   ensures[left] sa.queue == nil && (old(sa.queue) != nil ==> ncalls(objects.Queue.RemoveApplication) == 1)
+
+//@ func (sa *Application) SetQueue(queue *Queue)
+//@   props C17 C03
+//@   sweep
+//@   mode nopanic=off
+//@   ensures[set] sa.queue == queue && sa.queuePath == queue.QueuePath
+
+//@ func (sq *Queue) AddApplication(app *Application)
+//@   props C03 C17
+//@   sweep
+//@   mode nopanic=off
+//@   ensures[listed] sq.applications[app.ApplicationID] == app
+
+//@ func (sq *Queue) DecPreemptingResource(alloc *resources.Resource)
+//@   props C08
+//@   sweep
+//@   mode nopanic=off
+//@   at[up] call objects.Queue.DecPreemptingResource#1: assert arg0 == sq.parent && arg1 == alloc
+//@   at[own] call resources.Sub#1: assert arg0 == sq.preemptingResource && arg1 == alloc
+//@   ensures[both] sq != nil ==> ncalls(objects.Queue.DecPreemptingResource) == 1 && ncalls(resources.Sub) == 1
